@@ -52,7 +52,8 @@ def opsC14 : List (String × Op) := [
     let nd ← a.int "nodata"
     let how ← a.nat "how"
     pure [("model", fillDownModel ds seq data nd how),
-          ("spec", fillDownSpec ds data nd how), ("topo", ofBool (isTopo ds seq))]),
+          ("spec", fillDownSpec ds data nd how), ("topo", ofBool (isTopo ds seq)),
+          ("cover", ofBool (coversNet_c14 ds seq && data.size == ds.size && decide (how ≤ 2)))]),
   ("c14_window", fun a => do
     let ds ← a.nats "ds"
     let um ← a.nats "usmain"
